@@ -57,6 +57,8 @@ def transparent(j):
             continue
         if any(g['kind'] not in ('type', 'lifetime') for g in a.get('generics', [])):
             continue
+        if not a['variants'][0]['fields']:
+            continue        # a unit struct is a marker / an answer (`Err(Panicked)`), not a bundle of protocol data
         new[p] = a
     if not new:
         return j, []
@@ -100,8 +102,12 @@ def transparent(j):
 
     def walk(x):
         if isinstance(x, dict):
-            if x.get('k') == 'field' and isinstance(x.get('bty'), str) and pat.search(x['bty'].split('<')[0]):
-                x['n'] = str(x.get('i', x.get('n')))
+            # (field projections keep their names: `entry.thread` reads as field `thread` of a tuple - rules that look for a named field of
+            # a known struct still find it when the field moved into a new bundling struct)
+            if x.get('k') == 'field' and isinstance(x.get('bty'), str):
+                m_ = pat.match(x['bty'].strip().lstrip('&').replace('mut ', '', 1).strip())
+                if m_:
+                    x['was_struct'] = m_.group(1)
             if x.get('k') == 'agg' and x.get('ak') == 'adt' and x.get('adt') in new:
                 x['ak'] = 'tuple'
                 x['was_adt'] = x.pop('adt')
